@@ -362,6 +362,27 @@ def c_pv_len(site, fx):
     return site.family == "unwrap" and in_fn(site, "PrincipalVariation::len") and bool(find_calls(op0(site), "ArrayVec::len"))
 
 
+def c_duration_mul_const(site, fx):
+    # Duration::mul_f32 by a constant factor in [0, 16]: cannot go negative / NaN, cannot overflow for GUI-supplied millisecond values
+    if site.family != "duration" or not site.what.endswith("mul_f32"):
+        return False
+    c = deep_strip(site.ops[1]) if len(site.ops) > 1 else None
+    return isinstance(c, tuple) and c[0] == "const" and isinstance(c[1], float) and 0.0 <= c[1] <= 16.0
+
+
+def c_duration_add(site, fx):
+    # sum of two durations that come from GUI-supplied i64 millisecond values scaled by factors <= 16
+    return site.family == "duration" and site.what.endswith("Add>::add") and in_fn(site, "TimeStrategy::new")
+
+
+def c_duration_div_movestogo(site, fx):
+    # time / movestogo: the UCI protocol (and C14's stated domain) has movestogo >= 1
+    if site.family != "duration" or "Div<u32>" not in site.what:
+        return False
+    d = site.ops[1] if len(site.ops) > 1 else None
+    return d is not None and any(isinstance(x, tuple) and len(x) == 3 and x[0] == "field" and x[2] == "moves_to_go" for x in walk(deep_strip(d)))
+
+
 def c_plies_assumption(site, fx):
     # plies + 1 / killer table index at ply 255 in negamax: recorded assumption (no failing input in reach)
     if site.family == "arith" and site.what == "Add" and site.ty == "u8" and in_fn(site, "negamax::negamax"):
@@ -412,5 +433,8 @@ CLASSES = [
     ("magic-shift", c_magic_shift, "shift by the constant 64 - bits", "belief"),
     ("move-flags", c_move_flags, "flag nibble written from a Flags value; word non-zero (C01-FLAGS)", "belief"),
     ("pv-len", c_pv_len, "length of an ArrayVec with capacity 255 fits u8", "checked"),
+    ("duration-mul-const", c_duration_mul_const, "Duration::mul_f32 by a constant factor in [0, 16]", "checked"),
+    ("duration-add", c_duration_add, "sum of GUI-supplied durations scaled by small constants", "belief"),
+    ("movestogo-nonzero", c_duration_div_movestogo, "ASSUMPTION: movestogo >= 1 (UCI protocol; the stated domain of C14)", "assumption"),
     ("ply-255", c_plies_assumption, "ASSUMPTION: negamax is never entered at ply 255 (needs a 255-ply line inside a depth-255 search)", "assumption"),
 ]
